@@ -235,6 +235,24 @@ func genCfg(rng *rand.Rand) *gCfg {
 		_ = isAud
 		clauses = append(clauses, cl)
 	}
+	// an auditor whose only data can be verdicts: no `watches`, an expression
+	// over the built-in variables only
+	if rng.Intn(3) == 0 {
+		e := []string{"t >= 0", "moodt < 5 && mood != 'blue'", "mood == 'clear'"}[rng.Intn(3)]
+		mod := modalities[rng.Intn(len(modalities))]
+		var cl []clause
+		if rng.Intn(3) == 0 {
+			cl = append(cl, clause{"verd", "audits only while mood == 'red'", func(m *gMember) { m.Active = "mood == 'red'" }})
+		}
+		cl = append(cl, clause{"verd", fmt.Sprintf("expects %s: %s", mod, e), func(m *gMember) {
+			if m.Active == "" {
+				m.Active = "true"
+			}
+			m.ExpFsm = mod
+			m.ExpSrc = e
+		}})
+		clauses = append(clauses, cl)
+	}
 	// interleave round-robin (declaration order = order of first mention)
 	// only when no clause defines a variable: variables must be defined
 	// before use.
@@ -486,6 +504,13 @@ func genDataOnce(rng *rand.Rand, c *gCfg) *dataDesc {
 		d.RawMin = int64(rng.Intn(40)) * 10 * ms
 		d.RawMax = int64(2*(5+rng.Intn(100))+1) * 100 * ms
 	}
+	genOverlays(rng, c, d)
+	return d
+}
+
+// genOverlays adds act starts and mood periods around the (assembled) range.
+func genOverlays(rng *rand.Rand, c *gCfg, d *dataDesc) {
+	const ms = 1000
 	_, mx := assembleRange(d)
 	// acts
 	if c.NumActs > 0 {
@@ -535,7 +560,133 @@ func genDataOnce(rng *rand.Rand, c *gCfg) *dataDesc {
 		d.Moods = append(d.Moods, p)
 		t = en
 	}
-	return d
+}
+
+// ---------------------------------------------------------------------------
+// collected states produced by the REAL collector: events fed through
+// collectActionReport / collectObservation / collectAuditionReport
+
+func genEvents(rng *rand.Rand, c *gCfg) ([]cmd.VerifCollectEvent, *dataDesc) {
+	for {
+		evs, d := genEventsOnce(rng, c)
+		if !onBoundary(d, c) {
+			return evs, d
+		}
+	}
+}
+
+func genEventsOnce(rng *rand.Rand, c *gCfg) ([]cmd.VerifCollectEvent, *dataDesc) {
+	const ms = 1000
+	d := &dataDesc{ActorHas: map[string]bool{}, VarHas: map[string]bool{}, AuditHas: map[string]bool{}, ObsHas: map[string]bool{}}
+	var evs []cmd.VerifCollectEvent
+	span := int64(20+rng.Intn(400)) * 10 * ms
+	start := int64(0)
+	if rng.Intn(6) == 0 {
+		start = -int64(1+rng.Intn(30)) * 10 * ms
+	}
+	ts := func() int64 { return start + int64(rng.Intn(int(span/(10*ms))+1))*10*ms }
+	var tss []int64
+	add := func(e cmd.VerifCollectEvent, t int64) {
+		e.Ts = toF(t)
+		evs = append(evs, e)
+		tss = append(tss, t)
+	}
+	// actions
+	pAct := []float64{0.7, 0.3, 1, 0}[rng.Intn(4)]
+	for _, a := range c.Actors {
+		if rng.Float64() < pAct {
+			for k := 0; k < 1+rng.Intn(3); k++ {
+				add(cmd.VerifCollectEvent{Kind: "action", Actor: a.Name, Sig: "a", Result: rng.Intn(3)}, ts())
+			}
+			d.ActorHas[a.Name] = true
+		}
+	}
+	// observations of watched signals / variables and of the built-in ones
+	type vk struct{ a, s string }
+	pool := []vk{{"", "t"}, {"", "mood"}, {"", "moodt"}}
+	seen := map[vk]bool{}
+	for _, m := range c.Members {
+		for _, v := range m.Vars {
+			k := vk{v.Actor, v.Sig}
+			if !seen[k] {
+				seen[k] = true
+				pool = append(pool, k)
+			}
+		}
+	}
+	pVar := []float64{0.6, 0.9, 0.2, 0}[rng.Intn(4)]
+	observed := map[vk]bool{}
+	for _, k := range pool {
+		if rng.Float64() < pVar {
+			observed[k] = true
+			for n := 0; n < 1+rng.Intn(3); n++ {
+				isNum := rng.Intn(2) == 0
+				val := "x"
+				if isNum {
+					val = fmt.Sprintf("%d.5", rng.Intn(90))
+				}
+				add(cmd.VerifCollectEvent{Kind: "obs", Actor: k.a, Sig: k.s, Val: val, IsNum: isNum}, ts())
+			}
+		}
+	}
+	// verdicts: sometimes for every auditor, sometimes for a few, sometimes none
+	pRep := []float64{1, 0.5, 0.5, 0}[rng.Intn(4)]
+	for _, m := range c.Members {
+		if m.ExpFsm != "" && rng.Float64() < pRep {
+			for n := 0; n < 1+rng.Intn(3); n++ {
+				add(cmd.VerifCollectEvent{Kind: "report", Member: m.Name, Result: []int{0, 2, 3, 3}[rng.Intn(4)], Val: []string{"good", "bad", "checking", ""}[rng.Intn(4)]}, ts())
+			}
+			d.AuditHas[m.Name] = true
+		}
+	}
+	rng.Shuffle(len(evs), func(i, j int) { evs[i], evs[j] = evs[j], evs[i] })
+	// what the statement says was "received": derived from the events alone
+	for _, m := range c.Members {
+		any := d.AuditHas[m.Name]
+		for _, v := range m.Vars {
+			if observed[vk{v.Actor, v.Sig}] {
+				d.VarHas[m.Name+"|"+v.Actor+"|"+v.Sig] = true
+				any = true
+			}
+		}
+		d.ObsHas[m.Name] = any
+	}
+	if len(tss) == 0 {
+		d.RawNone = true
+	} else {
+		d.RawMin, d.RawMax = tss[0], tss[0]
+		for _, t := range tss {
+			if t < d.RawMin {
+				d.RawMin = t
+			}
+			if t > d.RawMax {
+				d.RawMax = t
+			}
+		}
+	}
+	genOverlays(rng, c, d)
+	return evs, d
+}
+
+func runCollectCase(c *gCfg, evs []cmd.VerifCollectEvent, d *dataDesc) (*plotCase, string) {
+	var moods []cmd.VerifMoodPeriod
+	var acts []cmd.VerifActChange
+	for _, p := range d.Moods {
+		moods = append(moods, cmd.VerifMoodPeriod{Start: toF(p.Start), End: toF(p.End), Mood: p.Mood})
+	}
+	for _, a := range d.Acts {
+		acts = append(acts, cmd.VerifActChange{Ts: toF(a.Ts), ActNum: a.ActNum})
+	}
+	out, cerr, csv := cmd.VerifCollectAndPlot(c.Text, evs, moods, acts, d.NumRepeats)
+	if cerr != "" {
+		return nil, "collector refused a generated event: " + cerr + "\n" + c.Text
+	}
+	pc, msg := finishCase(c, d, out)
+	if pc != nil {
+		pc.Events = evs
+		pc.CSV = csv
+	}
+	return pc, msg
 }
 
 // ---------------------------------------------------------------------------
@@ -849,6 +1000,8 @@ func fToUs(f float64) int64 { return int64(math.Round(f * 1e6)) }
 
 type plotCase struct {
 	Cfg       string
+	Events    []cmd.VerifCollectEvent `json:",omitempty"`
+	CSV       []string                `json:",omitempty"`
 	Data      *dataDesc
 	RepeatAct int
 	Out       cmd.VerifPlotOutput
@@ -905,7 +1058,11 @@ func runPlotCase(c *gCfg, d *dataDesc) (*plotCase, string) {
 	for _, a := range d.Acts {
 		in.ActChanges = append(in.ActChanges, cmd.VerifActChange{Ts: toF(a.Ts), ActNum: a.ActNum})
 	}
-	out := cmd.VerifPlot(in)
+	return finishCase(c, d, cmd.VerifPlot(in))
+}
+
+// finishCase parses what the real plot wrote and prints the case.
+func finishCase(c *gCfg, d *dataDesc, out cmd.VerifPlotOutput) (*plotCase, string) {
 	if out.ParseErr != "" || out.Panic != "" || out.PlotErr != "" {
 		return nil, fmt.Sprintf("parse=%q panic=%q plot=%q\n%s", out.ParseErr, out.Panic, out.PlotErr, c.Text)
 	}
@@ -1005,12 +1162,12 @@ func main() {
 	rng := vh.Rng(*seed)
 	defer cmd.VerifLogScope()()
 
-	nCfg, perCfg, nMood, nE2E := 120, 3, 300, 0
+	nCfg, nCol, perCfg, nMood, nE2E := 100, 80, 3, 300, 4
 	if *tier == "thorough" {
-		nCfg, perCfg, nMood, nE2E = 1000, 4, 4000, 12
+		nCfg, nCol, perCfg, nMood, nE2E = 800, 600, 4, 4000, 12
 	}
 	if *e2eOnly {
-		nCfg, nMood, nE2E = 1, 1, 12
+		nCfg, nCol, nMood, nE2E = 1, 1, 1, 12
 	}
 	var cases []*plotCase
 	var genErrs []string
@@ -1024,6 +1181,19 @@ func main() {
 				break
 			}
 			cases = append(cases, pc)
+		}
+	}
+	var ccases []*plotCase
+	for i := 0; i < nCol; i++ {
+		c := genCfg(rng)
+		for k := 0; k < perCfg; k++ {
+			evs, d := genEvents(rng, c)
+			pc, msg := runCollectCase(c, evs, d)
+			if pc == nil {
+				genErrs = append(genErrs, msg)
+				break
+			}
+			ccases = append(ccases, pc)
 		}
 	}
 	if len(genErrs) > 0 {
@@ -1048,6 +1218,11 @@ func main() {
 	}
 	sb.WriteString("Definition plot_cases : list plot_case := " + vh.ListNL(items) + ".\n")
 	items = nil
+	for _, c := range ccases {
+		items = append(items, c.Coq)
+	}
+	sb.WriteString("Definition collect_cases : list plot_case := " + vh.ListNL(items) + ".\n")
+	items = nil
 	for _, c := range moodCases {
 		items = append(items, coqMoodCase(c))
 	}
@@ -1060,7 +1235,7 @@ func main() {
 	}
 	sb.WriteString("Definition e2e_cases : list e2e_case := " + vh.ListNL(items) + ".\n")
 	vh.WriteFile(*out, "cases.v", sb.String())
-	vh.WriteJSON(*out, "cases.json", map[string]interface{}{"plot": cases, "mood": moodCases, "e2e": e2e})
+	vh.WriteJSON(*out, "cases.json", map[string]interface{}{"plot": cases, "collect": ccases, "mood": moodCases, "e2e": e2e})
 
 	// summary
 	shapes := map[string]int{}
@@ -1117,6 +1292,32 @@ func main() {
 	if len(moodCases) > 0 {
 		samples = append(samples, moodCases[len(moodCases)/2])
 	}
+	// collected cases in which some member's only data are verdicts
+	verdictOnly := 0
+	for _, c := range ccases {
+		for m, h := range c.Data.AuditHas {
+			if !h {
+				continue
+			}
+			only := true
+			for k, v := range c.Data.VarHas {
+				if v && strings.HasPrefix(k, m+"|") {
+					only = false
+				}
+			}
+			if only {
+				verdictOnly++
+				break
+			}
+		}
+		key := c.Cfg + fmt.Sprint(c.Data)
+		if !distinct[key] {
+			distinct[key] = true
+			if !strings.Contains(c.Shape, "boxes=0") || !strings.Contains(c.Shape, "lanes=0") {
+				nontrivial++
+			}
+		}
+	}
 	e2eOk := 0
 	for _, e := range e2e {
 		if e.Err == "" {
@@ -1124,7 +1325,7 @@ func main() {
 		}
 	}
 	vh.WriteJSON(*out, "summary.json", map[string]interface{}{
-		"plot": len(cases), "mood": len(moodCases), "e2e": len(e2e), "e2e_completed": e2eOk,
+		"plot": len(cases), "collect": len(ccases), "collect_verdict_only_boxes": verdictOnly, "mood": len(moodCases), "e2e": len(e2e), "e2e_completed": e2eOk,
 		"unusable_configurations": len(genErrs), "distinct_nontrivial": nontrivial, "stats": stats, "samples": samples,
 	})
 }
@@ -1211,6 +1412,9 @@ func e2eSpecs(rng *rand.Rand, n int) []e2eSpec {
 			}
 		}
 		addM(m5, "watches fast", "watches every road ride")
+		// an auditor whose only data are verdicts: no watches, built-in variables only
+		m7 := &gMember{Name: "clock", Active: "true", ExpFsm: "always", ExpSrc: "t >= 0"}
+		addM(m7, "expects always: t >= 0")
 		// an auditor that is never activated: no verdicts
 		if rng.Intn(2) == 0 {
 			m6 := &gMember{Name: "sleeper", Active: "mood == 'purple'", ExpFsm: "never", ExpSrc: "t < 0"}
